@@ -3,6 +3,7 @@ package main
 import (
 	"fmt"
 	"go/token"
+	"regexp"
 	"strings"
 
 	"golang.org/x/tools/go/ssa"
@@ -18,6 +19,8 @@ func init() {
 			"Decides the condition forms, polarity and wiring on all paths; not behaviour over histories or the LRU library.",
 		Assume: []string{"hashicorp/golang-lru evicts down to the size it was created with and calls the eviction callback", "time.Since is monotone"}})
 }
+
+var reExpField = regexp.MustCompile(`^[A-Za-z_][A-Za-z0-9_]*\.expiration$`)
 
 // returnedValue resolves result #idx of a Return through defer-spill slots and phis (prev = predecessor block taken).
 func returnedValue(ret *ssa.Return, idx int, prev *ssa.BasicBlock) ssa.Value {
@@ -67,12 +70,21 @@ func checkC18(c *Ctx) {
 			switch {
 			case strings.HasSuffix(cnd, ".ipCache[key]#1"):
 				return "present", true, true
-			case strings.Contains(cnd, "time.Since(") && strings.Contains(cnd, ".cachedTime") && strings.Contains(cnd, ".expiration") && strings.Contains(cnd, " < "):
-				i := strings.Index(cnd, " < ")
-				if strings.Contains(cnd[:i], "time.Since(") {
-					return "fresh", true, true // Since < expiration
+			default:
+				// the age must be compared with the configured expiration field itself, not with a value derived from it
+				l, rr, ok := splitLt(cnd)
+				if !ok {
+					return "", false, false
 				}
-				return "fresh", false, true // expiration < Since  => not fresh (boundary instant not distinguished)
+				isAge := func(x string) bool {
+					return strings.HasPrefix(x, "time.Since(") && strings.HasSuffix(x, ".cachedTime)") && balancedCall(x)
+				}
+				if isAge(l) && reExpField.MatchString(rr) {
+					return "fresh", true, true // Since(cachedTime) < expiration
+				}
+				if isAge(rr) && reExpField.MatchString(l) {
+					return "fresh", false, true // expiration < Since => not fresh (boundary instant not distinguished)
+				}
 			}
 			return "", false, false
 		}
